@@ -85,6 +85,14 @@ def lit_text(v):
   raise AssertionError(v)
 
 
+def kname(op):
+  """'ArgMinK:2' -> 'ArgMin2' (helper aggregation defined by the program), other operators unchanged"""
+  if ':' in op:
+    base, k = op.split(':')
+    return base[:-1] + k
+  return op
+
+
 class Printer:
   """Options select among equivalent surface forms (used by C11 / C15)."""
 
@@ -141,7 +149,8 @@ class Printer:
       if ':' in op:
         op, k = op.split(':')
       if k is not None:
-        return '(combine %s= (%s, %s) :- %s)' % (op, self.expr(e['e'], True), k, self.prop(e['body']))  # not used
+        # ArgMinK:2 is written with the helper ArgMin2(x) = ArgMinK(x, 2) the program defines (templates.t_argmin_k)
+        op = op[:-1] + k
       form = self.opt.get('agg_form', 'brace')
       if form == 'combine':
         return '(combine %s= %s :- %s)' % (op, self.expr(e['e'], True), self.prop(e['body']))
@@ -209,7 +218,7 @@ class Printer:
         value = x
         continue
       if isinstance(x, dict) and 'aggop' in x:
-        plain.append('%s? %s= %s' % (f, x['aggop'], self.expr(x['e'], True)))
+        plain.append('%s? %s= %s' % (f, kname(x['aggop']), self.expr(x['e'], True)))
       elif f.startswith('col') and f[3:].isdigit() and not self.opt.get('explicit_cols'):
         plain.append(self.expr(x, True))
       elif self.opt.get('field_shorthand') and isinstance(x, dict) and x.get('var') == f:
